@@ -109,6 +109,9 @@ func exec1(line string) string {
 	if isHistOp(line) {
 		return execHist(line)
 	}
+	if ws[0] == "start" {
+		return execStart(ws)
+	}
 	switch {
 	case ws[0] == "wf" && len(ws) == 1:
 		return ref.wfLine()
@@ -236,6 +239,9 @@ func validOp(line string) bool {
 	if isHistOp(line) {
 		return validHistOp(ws)
 	}
+	if ws[0] == "start" {
+		return validStartOp(ws)
+	}
 	if ws[0] == "cfg" {
 		if len(ws) != 4 || (ws[1] != "d" && ws[1] != "m") || (ws[2] != "b2u" && ws[2] != "u2b") {
 			return false
@@ -264,6 +270,17 @@ func classify(line, out string) string {
 		return classifyHist(line, out)
 	}
 	ws := strings.Fields(line)
+	if ws[0] == "start" {
+		switch {
+		case out == "INIT-ERR":
+			return "start:init-err"
+		case strings.Trim(out, "0123456789abcdef") != "" && out != "-":
+			return "start:" + out
+		case ws[1] == "Rb" && ws[2] == "Ru":
+			return "start:real-tables"
+		}
+		return "start:synthetic-tables"
+	}
 	suffix := ""
 	if out == "PANIC" || out == "TIMEOUT" {
 		suffix = ":" + strings.ToLower(out)
